@@ -503,78 +503,10 @@ pub fn fuzz_dir() -> std::path::PathBuf {
     verif_root().join("harness").join("fuzz")
 }
 
-/// run the libFuzzer target as a child process; returns (executions, crash files)
+/// run the libFuzzer target `deser` (see fuzzrun.rs) and judge its artifacts in child processes
 fn run_fuzzer(ctx: &mut Ctx, runs: u64, jobs: usize) {
-    // quick: dev profile (fast to rebuild after a source change), thorough: release
-    let bin = verif_root().join("harness/target/x86_64-unknown-linux-gnu").join(if ctx.tier == Tier::Quick { "debug" } else { "release" }).join("deser");
-    if !bin.exists() {
-        ctx.inconclusive.push(format!("fuzz target binary {} not built (check.sh builds it with cargo +nightly fuzz build)", bin.display()));
-        return;
-    }
-    let corpus = fuzz_dir().join("corpus").join("deser");
-    let work = verif_root().join("out").join("fuzz").join("deser");
-    let art = work.join("artifacts");
-    let wc = work.join("corpus");
-    let _ = std::fs::remove_dir_all(&work);
-    let _ = std::fs::create_dir_all(&art);
-    let _ = std::fs::create_dir_all(&wc);
-    // 1. regression: every committed corpus file
-    let seeds: Vec<std::path::PathBuf> = std::fs::read_dir(&corpus).map(|r| r.filter_map(|e| e.ok()).map(|e| e.path()).collect()).unwrap_or_default();
-    let mut total_execs = 0u64;
-    let parse_execs = |out: &str| -> u64 {
-        // "Done N runs in" or "stat::number_of_executed_units: N"
-        for l in out.lines().rev() {
-            if let Some(p) = l.find("stat::number_of_executed_units:") {
-                return l[p + 31..].trim().parse().unwrap_or(0);
-            }
-            if l.starts_with("Done ") {
-                return l.split_whitespace().nth(1).and_then(|x| x.parse().ok()).unwrap_or(0);
-            }
-        }
-        0
-    };
-    let mut children = vec![];
-    for j in 0..jobs {
-        let mut cmd = std::process::Command::new(&bin);
-        cmd.arg(wc.join(format!("w{}", j))).arg(&corpus);
-        let _ = std::fs::create_dir_all(wc.join(format!("w{}", j)));
-        cmd.args([format!("-runs={}", runs / jobs as u64), format!("-seed={}", (ctx.seed.wrapping_mul(31).wrapping_add(j as u64) % 4_000_000_000) + 1), "-max_len=256".into(), "-len_control=0".into(), "-print_final_stats=1".into(), "-timeout=10".into(), "-rss_limit_mb=2048".into(), format!("-artifact_prefix={}/", art.display()), format!("-dict={}", fuzz_dir().join("deser.dict").display())]);
-        // stderr to a file: libFuzzer is chatty and a full pipe would stall the child
-        let logf = work.join(format!("w{}.log", j));
-        match std::fs::File::create(&logf) {
-            Ok(f) => {
-                cmd.stdout(std::process::Stdio::null()).stderr(f);
-            }
-            Err(_) => {
-                cmd.stdout(std::process::Stdio::null()).stderr(std::process::Stdio::null());
-            }
-        }
-        match cmd.spawn() {
-            Ok(c) => children.push((c, logf)),
-            Err(e) => ctx.inconclusive.push(format!("cannot start the fuzz target: {}", e)),
-        }
-    }
-    for (mut c, logf) in children {
-        ctx.watchdog.tick();
-        let _ = c.wait();
-        let text = std::fs::read_to_string(&logf).unwrap_or_default();
-        total_execs += parse_execs(&text);
-        ctx.watchdog.tick();
-    }
-    ctx.stats.evals_n(total_execs);
-    ctx.stats.extra.insert("fuzz".into(), json!({"target": "deser", "engine": "libFuzzer (cargo-fuzz, ASan)", "executions": total_execs, "jobs": jobs, "seed_corpus_files": seeds.len(), "max_len": 256}));
-    // crashes / oracle failures: each artifact is replayed in-process to get the clause
-    let arts: Vec<std::path::PathBuf> = std::fs::read_dir(&art).map(|r| r.filter_map(|e| e.ok()).map(|e| e.path()).collect()).unwrap_or_default();
+    let arts = crate::fuzzrun::campaign(ctx, "deser", Some("deser.dict"), 256, runs, jobs, &[]);
     for a in arts {
-        let name = a.file_name().map(|x| x.to_string_lossy().to_string()).unwrap_or_default();
-        let data = std::fs::read(&a).unwrap_or_default();
-        if name.starts_with("timeout-") || name.starts_with("oom-") || name.starts_with("slow-unit-") {
-            ctx.inconclusive.push(format!("libFuzzer reported {} (kept at {}); a time/memory budget hit is not a violation", name, a.display()));
-            continue;
-        }
-        if data.is_empty() {
-            continue;
-        }
         judge_file_in_child(ctx, &a, "libFuzzer artifact");
     }
 }
@@ -631,7 +563,7 @@ pub fn one_child(path: &str) -> i32 {
 }
 
 /// runs `gv <args>` and returns (exit code or None when killed by a signal, stdout)
-fn child(args: &[String], timeout_s: u64) -> (Option<i32>, String) {
+pub fn child(args: &[String], timeout_s: u64) -> (Option<i32>, String) {
     let Ok(exe) = std::env::current_exe() else { return (Some(2), String::new()) };
     let Ok(mut c) = std::process::Command::new(exe).args(args).stdout(std::process::Stdio::piped()).stderr(std::process::Stdio::null()).spawn() else { return (Some(2), String::new()) };
     let t0 = std::time::Instant::now();
